@@ -198,7 +198,12 @@ type TraceVerdict struct {
 
 // ValidateTrace checks that the NDJSON trace is a behaviour of the trace specification `module`.
 func (r *Run) ValidateTrace(module, traceFile string, lines int, timeout time.Duration) (*TraceVerdict, error) {
-	res, err := r.TLC(TLCOpts{Module: module, Workers: 1, DFS: true, Timeout: timeout, HeapMB: 6000,
+	return r.ValidateTraceCfg(module, "", traceFile, lines, timeout)
+}
+
+// ValidateTraceCfg is ValidateTrace with an explicit configuration file.
+func (r *Run) ValidateTraceCfg(module, config, traceFile string, lines int, timeout time.Duration) (*TraceVerdict, error) {
+	res, err := r.TLC(TLCOpts{Module: module, Config: config, Workers: 1, DFS: true, Timeout: timeout, HeapMB: 6000,
 		Env: map[string]string{"TRACE": traceFile}})
 	if err != nil {
 		return nil, err
